@@ -8,11 +8,11 @@ use crate::runner::*;
 use proptest::strategy::BoxedStrategy;
 use serde_json::Value;
 
-fn oracles() -> Oracles {
+pub fn oracles() -> Oracles {
     Oracles { dump_every: 3, final_reopen: true, measure_shapes: true, checker_every: 4, stale_handles: true, ..Oracles::default() }
 }
 
-fn profile(tier: Tier) -> Profile {
+pub fn profile(tier: Tier) -> Profile {
     let mut p = Profile::c01();
     p.create = 28;
     p.remove = 26;
@@ -37,7 +37,7 @@ fn nontrivial(s: &Stats, _c: &Case) -> bool {
     s.has("handle_used_after_pred_removal") || s.has("handle_used_after_slot_reuse")
 }
 
-fn report(c: &Case) -> CaseReport {
+pub fn report(c: &Case) -> CaseReport {
     history_report(c, oracles(), nontrivial)
 }
 
@@ -83,18 +83,21 @@ fn focus_case(tier: Tier) -> BoxedStrategy<Case> {
         .boxed()
 }
 
-fn worker(ctx: &Ctx) -> WorkerResult {
+pub fn strategy(tier: Tier) -> proptest::strategy::BoxedStrategy<Case> {
     use proptest::prelude::*;
     // a share of the general histories starts on a foreign file, some with tolerated deviations
-    let general = (case_strategy(&profile(ctx.tier), true), proptest::option::weighted(0.25, (any::<u64>(), proptest::collection::vec((any::<u8>(), any::<u16>()), 1..4))))
+    let general = (case_strategy(&profile(tier), true), proptest::option::weighted(0.25, (any::<u64>(), proptest::collection::vec((any::<u8>(), any::<u16>()), 1..4))))
         .prop_map(|(mut c, dv)| {
             if let Some((seed, devs)) = dv {
                 c.start = Start::Deviant { seed, devs };
             }
             c
         });
-    let strat = prop_oneof![2 => general, 3 => focus_case(ctx.tier)].boxed();
-    run_worker(ctx, strat, report)
+    prop_oneof![2 => general, 3 => focus_case(tier)].boxed()
+}
+
+fn worker(ctx: &Ctx) -> WorkerResult {
+    run_worker(ctx, strategy(ctx.tier), report)
 }
 
 fn solo(v: &Value) -> Result<CaseReport, String> {
